@@ -6,6 +6,10 @@ C09.ro    ReadZone.version is set only at construction; ZoneVersions.current
           is moved only by update_current <- publish_new_zone_version <- commit.
 C09.wr    every mutation issued by a WriteNode carries
           `self.zone.new_version`; new_version changes only in new/publish.
+C09.stale the version a WriteNode writes at follows the writer's: it is not a
+          private by-value copy that goes stale when commit() moves the
+          writer on to the next version (a handle kept across commit would
+          edit the *published* version in place).
 C09.lock  ZoneApex::write: the writer's version is read, and the WriteZone is
           created, only after the update lock was acquired; the guard is
           moved into the WriteZone.
@@ -41,6 +45,7 @@ def run(ctx):
     rule_pin(ctx, F)
     rule_ro(ctx, F)
     rule_wr(ctx, F)
+    rule_stale(ctx, F)
     rule_lock(ctx, F)
     rule_rbk(ctx, F)
     rule_drop(ctx, F)
@@ -253,6 +258,50 @@ def rule_wr(ctx, F):
             _provenance(F, pb, pb.term_of_operand(up[0][1]["args"][1])) == "self.new_version"
         ctx.ob(R, pb, "publishes new_version, then advances it", ok,
                "publish_new_zone_version must make self.new_version current and only then move on to the next version")
+
+
+def rule_stale(ctx, F):
+    R = "C09.stale"
+    ctx.floor(R, 1)
+    wz = F.adts.get("zonetree::in_memory::write::WriteZone")
+    wn = F.adts.get("zonetree::in_memory::write::WriteNode")
+    if not ctx.anchor(R, "struct WriteZone / struct WriteNode", wz is not None and wn is not None):
+        return
+    vfields = [f["name"] for f in wz["variants"][0]["fields"] if f["ty"].strip() == VERSION_TY]
+    holds = [f["name"] for f in wn["variants"][0]["fields"] if f["ty"].strip() == "zonetree::in_memory::write::WriteZone"]
+    if not vfields or not holds:
+        # the version lives behind a shared handle, or nodes borrow the writer: nothing can go stale
+        ctx.ob(R, "zonetree::in_memory::write::WriteNode", "node handles share the writer's version", True,
+               detail="WriteZone has no by-value Version field (%s) or WriteNode does not own a WriteZone (%s)" % (vfields, holds))
+        return
+    v = vfields[0]
+    # who assigns the field after construction?
+    import json
+    movers = []
+    for p_, b_ in F.bodies.items():
+        if not p_.startswith("zonetree::in_memory::write::WriteZone::"):
+            continue
+        for bi in b_.reachable_blocks():
+            for st in b_.blocks[bi]["s"]:
+                if st[0] == "=" and len(st[1]) >= 2 and isinstance(st[1][-1], (list, tuple)) and st[1][-1][0] == "." and st[1][-1][2] == v:
+                    movers.append(p_.split("::")[-1])
+    cl = F.body("<zonetree::in_memory::write::WriteZone as core::clone::Clone>::clone")
+    copies = False
+    if cl is not None:
+        for bi in cl.reachable_blocks():
+            for st in cl.blocks[bi]["s"]:
+                if st[0] == "=" and st[2][0] == "agg" and st[2][1][0] == "adt" and st[2][1][1].endswith("write::WriteZone"):
+                    names = list(st[2][1][3])
+                    if v in names:
+                        op = st[2][2][names.index(v)]
+                        s = show(deep_strip(cl.term_of_operand(op)))
+                        copies = s.endswith("." + v)
+    stale = bool(movers) and copies
+    ctx.ob(R, "<zonetree::in_memory::write::WriteZone as core::clone::Clone>::clone", "node handles share the writer's version", not stale,
+           "every WriteNode owns a clone of the WriteZone with a by-value copy of `%s`, while %s moves the writer's own copy on at "
+           "commit: a node handle kept across commit() keeps writing at the version that has just been published, changing "
+           "what readers of that version see" % (v, "/".join(sorted(set(movers)))),
+           cl.where() if cl is not None else "")
 
 
 def rule_lock(ctx, F):
